@@ -427,6 +427,10 @@ def finish(pid: str, tier: str, seed: int, mod, agg: dict, problems: list[str], 
         except Exception as e:  # harness error, never a violation
             inconclusive.append(f"finalize failed: {e!r}")
 
+    cnt = agg["counters"]
+    if cnt.get("reuse_probes", 0) and cnt.get("reuse_outcome_ok", 0) * 2 < cnt.get("reuse_probes", 0):
+        inconclusive.append(f"life-cycle workload: only {cnt.get('reuse_outcome_ok', 0)} of {cnt.get('reuse_probes', 0)} probes reached a result (the others raised on the fresh object as well)")
+
     by_key: dict[str, list[dict]] = {}
     for v in agg["violations"]:
         by_key.setdefault(v["key"], []).append(v)
